@@ -161,7 +161,14 @@ def main():
                 ent = ",".join("%s.%s.%s" % (hx("/V/" + n), hx(c), hx("i" + hashlib.sha256(c.encode()).hexdigest()[:7])) for n, c in sorted(allf.items()))
                 fc.write("emit %s %s %s %s\n" % (cid, hx("/V/main.tsh"), ent, hx(std)))
                 fe.write("emit %s %s\n" % (cid, "accept" if acc else "reject"))
-        json.dump({"cases": len(ents) + len(import_entries()), "accepting_entries": sum(1 for e in ents if e[2])}, open(d + "/meta.json", "w"))
+            base = len(ents) + len(import_entries())
+            for i, (pid, src, acc) in enumerate(ents):      # the same program as an imported file: scoping must not depend on the file prefix
+                cid = "%d#imported-%s" % (base + i, pid)
+                allf = {"main.tsh": "import m \"lib.tsh\"\nprint(1)\n", "lib.tsh": src}
+                ent = ",".join("%s.%s.%s" % (hx("/V/" + n), hx(c), hx("i" + hashlib.sha256(c.encode()).hexdigest()[:7])) for n, c in sorted(allf.items()))
+                fc.write("emit %s %s %s %s\n" % (cid, hx("/V/main.tsh"), ent, hx(std)))
+                fe.write("emit %s %s\n" % (cid, "accept" if acc else "reject"))
+        json.dump({"cases": 2 * len(ents) + len(import_entries()), "accepting_entries": sum(1 for e in ents if e[2])}, open(d + "/meta.json", "w"))
     print(len(ents), "entries")
 
 if __name__ == "__main__":
